@@ -434,7 +434,7 @@ pub fn c14() -> HistProp {
     HistProp {
         id: "C14",
         level: "exploration",
-        rule: "seeded random histories on all key types in which 40% of the calls are batches of 0..200 keys (rarely 4000-9000 pairs) in arbitrary order, present and absent, with repeats where the statement allows them (bulk_get/bulk_get_string: any; bulk_delete, bulk_put, bulk_put_string: repeated keys removed by the interpreter; put_from_iter: any, order matters); values are raw byte patterns (mostly invalid UTF-8) and, for the *_string writers, text of 1-4 byte characters with stray invalid bytes, up to beyond 8 MiB in every 10th case. Oracle: position-wise equality with the model's element-wise results, full comparison of the map with the model after every writing batch, string forms == byte forms composed with from_utf8_lossy. Non-trivial: the history has an unsorted batch of >= 3 keys mixing present and absent keys; distinct by case digest.",
+        rule: "seeded random histories on all key types in which 40% of the calls are batches of 0..200 keys (rarely 4000-9000 pairs) in arbitrary order, present and absent, with repeats where the statement allows them (bulk_get/bulk_get_string: any; bulk_delete, bulk_put, bulk_put_string: repeated keys removed by the interpreter; put_from_iter: any, order matters; also put_from_iter fed by a live traversal of the same map through a second handle, rewriting every value in place with a value of the same length); values are raw byte patterns (mostly invalid UTF-8) and, for the *_string writers, text of 1-4 byte characters with stray invalid bytes, up to beyond 8 MiB in every 10th case. Oracle: position-wise equality with the model's element-wise results, full comparison of the map with the model after every writing batch, string forms == byte forms composed with from_utf8_lossy. Non-trivial: the history has an unsorted batch of >= 3 keys mixing present and absent keys; distinct by case digest.",
         assumptions: &[],
         cfg: c14_cfg,
         n: |t| t.pick(12000, 120000),
